@@ -26,11 +26,11 @@ type Pair struct {
 
 // Replay is a self-contained case description
 type Replay struct {
-	Kind  string `json:"kind"` // split|curly|trim|parse|line|prov|fparse|fprint|quote|unquote
-	S     []byte `json:"s,omitempty"`
-	Pairs []Pair `json:"pairs,omitempty"`
-	Text  string `json:"text,omitempty"` // printable rendering of S / Pairs (information only)
-	Evs   []E2EEvent `json:"evs,omitempty"` // e2e: the events written to one in-process server
+	Kind  string     `json:"kind"` // split|curly|trim|parse|line|prov|fparse|fprint|quote|unquote
+	S     []byte     `json:"s,omitempty"`
+	Pairs []Pair     `json:"pairs,omitempty"`
+	Text  string     `json:"text,omitempty"` // printable rendering of S / Pairs (information only)
+	Evs   []E2EEvent `json:"evs,omitempty"`  // e2e: the events written to one in-process server
 }
 
 // E2EEvent is one write of one event
@@ -258,10 +258,24 @@ func scanBalanced(v []byte) bool {
 
 func edgeBlank(v []byte) bool { return len(v) > 0 && (v[0] == ' ' || v[len(v)-1] == ' ') }
 
-func tagNeedsQuote(v []byte) bool {
+// tagNeedsQuote: which values tagMap.line() writes as quoted literals (valueNeedsQuote of the code; last = the pair
+// is the last one of the line)
+func tagNeedsQuote(v []byte, last bool) bool {
+	if tagNeedsQuoteOld(v) {
+		return true
+	}
+	if v[0] == ' ' || v[len(v)-1] == ' ' || v[0] == '"' || v[0] == '`' {
+		return true
+	}
+	return last && v[len(v)-1] == '}'
+}
+
+// tagNeedsQuoteOld / fldNeedsQuoteOld: the predicates of the printers before the quoting repair; they only serve to
+// name the class of a failure the repaired printers cannot produce (a regression), see classifyTagsLegacy
+func tagNeedsQuoteOld(v []byte) bool {
 	return len(v) == 0 || bytes.IndexByte(v, '=') >= 0 || bytes.IndexByte(v, ',') >= 0
 }
-func fldNeedsQuote(v []byte) bool {
+func fldNeedsQuoteOld(v []byte) bool {
 	return bytes.IndexByte(v, '=') >= 0 || bytes.IndexByte(v, ',') >= 0
 }
 
@@ -283,8 +297,18 @@ func rawValueClass(prefix string, v []byte) string {
 	return ""
 }
 
-// classifyTags names the input class of a tag map whose printed line does not parse back to it
+// classifyTags names the input class of a tag map whose printed line does not parse back to it. First the classes
+// that exist with the printer of the code (names are printed as they are; a raw-printed value with an unbalanced
+// double quote is pinned by TestTagLine); if none applies, the classes of the repaired defects (values that the
+// earlier line() printed raw): with the code such a map comes back, so the name is reported only on a regression.
 func classifyTags(m map[string]string) string {
+	if c := classifyTagsNow(m); c != "" {
+		return c
+	}
+	return classifyTagsLegacy(m)
+}
+
+func classifyTagsNow(m map[string]string) string {
 	keys := make([]string, 0, len(m))
 	for k := range m {
 		keys = append(keys, k)
@@ -296,15 +320,27 @@ func classifyTags(m map[string]string) string {
 		}
 	}
 	// an unbalanced double quote in any raw-printed value breaks the split of the whole line
-	for _, k := range keys {
+	for i, k := range keys {
 		v := []byte(m[k])
-		if !tagNeedsQuote(v) && v[0] != '"' && !scanBalanced(v) {
+		if !tagNeedsQuote(v, i == len(keys)-1) && !scanBalanced(v) {
 			return "tagline-value-unbalanced-dquote"
 		}
 	}
+	if len(keys) > 0 && keys[0][0] == '{' {
+		return "tagline-first-name-leading-brace"
+	}
+	return ""
+}
+
+func classifyTagsLegacy(m map[string]string) string {
+	keys := make([]string, 0, len(m))
+	for k := range m {
+		keys = append(keys, k)
+	}
+	sort.Strings(keys)
 	for _, k := range keys {
 		v := []byte(m[k])
-		if tagNeedsQuote(v) {
+		if tagNeedsQuoteOld(v) {
 			continue
 		}
 		if c := rawValueClass("tagline", v); c != "" {
@@ -313,17 +349,16 @@ func classifyTags(m map[string]string) string {
 	}
 	if len(keys) > 0 {
 		last := []byte(m[keys[len(keys)-1]])
-		if !tagNeedsQuote(last) && last[len(last)-1] == '}' {
+		if !tagNeedsQuoteOld(last) && last[len(last)-1] == '}' {
 			return "tagline-last-value-trailing-brace"
-		}
-		if keys[0][0] == '{' {
-			return "tagline-first-name-leading-brace"
 		}
 	}
 	return ""
 }
 
-// classifyFields names the input class of a field list (name,value,name,value...) whose text does not parse back to it
+// classifyFields names the input class of a field list (name,value,name,value...) whose text does not parse back to
+// it. With the AsKVString / NewFieldsFromKVString of the code every well-formed list comes back (C08_fields): these
+// are the classes of the repaired defects, and a failure (reported under its name) is a regression.
 func classifyFields(items [][]byte) string {
 	for i := 0; i+1 < len(items); i += 2 {
 		k := items[i]
@@ -340,13 +375,13 @@ func classifyFields(items [][]byte) string {
 	}
 	for i := 1; i < len(items); i += 2 {
 		v := items[i]
-		if !fldNeedsQuote(v) && len(v) > 0 && v[0] != '"' && !scanBalanced(v) {
+		if !fldNeedsQuoteOld(v) && len(v) > 0 && v[0] != '"' && !scanBalanced(v) {
 			return "fieldkv-value-unbalanced-dquote"
 		}
 	}
 	for i := 1; i < len(items); i += 2 {
 		v := items[i]
-		if fldNeedsQuote(v) {
+		if fldNeedsQuoteOld(v) {
 			if len(strconv.Quote(string(v))) > 255 {
 				return "fieldkv-quoted-value-over-255"
 			}
@@ -358,7 +393,7 @@ func classifyFields(items [][]byte) string {
 	}
 	if len(items) >= 2 {
 		last := items[len(items)-1]
-		if !fldNeedsQuote(last) && len(last) > 0 && last[len(last)-1] == '}' {
+		if !fldNeedsQuoteOld(last) && len(last) > 0 && last[len(last)-1] == '}' {
 			return "fieldkv-last-value-trailing-brace"
 		}
 		if items[0][0] == '{' {
@@ -589,15 +624,12 @@ func mkCase1(rp Replay) (*Case, error) {
 		cls := ""
 		for _, p := range sortedPairs(m) {
 			want = append(want, p.K, p.V)
-			r := p.V
-			if tagNeedsQuote(p.V) {
-				r = []byte(strconv.Quote(string(p.V)))
-			}
 			switch {
 			case cls != "":
 			case p.K[0] == '"' || p.K[0] == '`':
 				cls = "provenance-tag-name-leading-quote-char"
-			case len(p.K) > 255 || len(r) > 255 || len(p.V) > 255:
+			case len(p.K) > 255 || len(p.V) > 255:
+				// the limit is on what is stored: a printed (quoted) form longer than 255 bytes is no reason any more
 				cls = "provenance-item-over-255"
 			}
 		}
@@ -688,8 +720,9 @@ func mkCase1(rp Replay) (*Case, error) {
 }
 
 // mkE2E writes every event through the RPC client of an in-process server and reads everything back: the Tags and
-// Fields texts of the results are what C08 is about. One case per event. Texts are kept free of the inputs that make
-// the server store a malformed field list (that would panic the query goroutine, see fieldkv-unquoted-item-over-255).
+// Fields texts of the results are what C08 is about. One case per event. Texts are kept free of quoted literals that
+// unquote to more than 255 bytes (refused by the code; a tree without the repair of fieldkv-unquoted-item-over-255
+// would store a malformed list and panic in the query goroutine).
 func mkE2E(rp Replay) (out []*Case, err error) {
 	defer func() {
 		if r := recover(); r != nil {
@@ -836,6 +869,9 @@ func genE2E(r *Rng, n int) []E2EEvent {
 			if r.Chance(1, 4) {
 				v = append(v, r.PickStr(",", "=", ",x=", "\"y\",")...)
 				v = append(v, 'z')
+			} else if r.Chance(1, 5) {
+				// values the printers must quote for their ends: blanks, quote characters, a closing brace
+				v = []byte(r.PickStr(" x", "x ", "\"q\"", "`b`", "x}", "\"\"", "{x}", "a\"b\"c"))
 			}
 			ps = append(ps, Pair{K: k, V: v})
 		}
@@ -847,7 +883,7 @@ func genE2E(r *Rng, n int) []E2EEvent {
 			sb.WriteString(blanks(r))
 			sb.Write(p.K)
 			sb.WriteString("=")
-			plainV := bytes.IndexAny(p.V, ",=\" ") < 0
+			plainV := bytes.IndexAny(p.V, ",=\" `{}") < 0
 			if plainV && r.Chance(1, 2) {
 				sb.Write(p.V)
 			} else {
@@ -946,29 +982,34 @@ func corpus() []Replay {
 	}
 	long[7] = ','
 	return []Replay{
-		{Kind: "line", Pairs: P("a", "\"x")},         // a="x   : does not split
-		{Kind: "line", Pairs: P("name", "a\"pp")},     // pinned by TestTagLine
-		{Kind: "line", Pairs: P("a", "\"x\"")},        // a="x"  : parses to x
-		{Kind: "line", Pairs: P("a", "\"\"")},         // a=""   : parses to the empty value
-		{Kind: "line", Pairs: P("a", "")},             // a=""   : the same line as the previous one
+		// the witnesses of the repaired classes: line() now writes these values as quoted literals and they come back
+		{Kind: "line", Pairs: P("a", "\"x")},          // a="\"x"
+		{Kind: "line", Pairs: P("a", "\"x\"")},        // a="\"x\""  (was a="x", which parses to x)
+		{Kind: "line", Pairs: P("a", "\"\"")},         // a="\"\""   (was a="", the line of the empty value)
+		{Kind: "line", Pairs: P("a", "")},             // a=""
 		{Kind: "line", Pairs: P("a", "`x`")},          // back-quoted
-		{Kind: "line", Pairs: P("a", "`x")},           // unquote error
+		{Kind: "line", Pairs: P("a", "`x")},           //
 		{Kind: "line", Pairs: P("a", " x")},           // edge blank
 		{Kind: "line", Pairs: P("a", "x ")},           //
-		{Kind: "line", Pairs: P("a", "x}")},           // trailing brace
-		{Kind: "line", Pairs: P("a", "x}", "b", "y")}, // harmless: not the last value
-		{Kind: "line", Pairs: P("{a", "1", "~", "2")}, // first name with a leading brace
-		{Kind: "line", Pairs: P("a", "x\"y\"z")},      // balanced inner quotes: fine
-		{Kind: "line", Pairs: P("a", "b,c=d\"e\\")},   // quoted on the way out: fine
-		{Kind: "line", Pairs: P("a b", "1")},          // inner blank in a name: fine
-		{Kind: "line", Pairs: P(" a", "1")},           // MapToSet-only name
+		{Kind: "line", Pairs: P("a", "x}")},           // trailing brace of the last pair: quoted
+		{Kind: "line", Pairs: P("a", "x}", "b", "y")}, // not the last value: raw, as before
+		{Kind: "line", Pairs: P("a", "x\"y }")},       // last value, unbalanced quote AND trailing brace: quoted, comes back
+		// what remains
+		{Kind: "line", Pairs: P("name", "a\"pp")},          // pinned by TestTagLine: printed raw, does not split
+		{Kind: "line", Pairs: P("a", "x\"y", "b", "z\"w")}, // two of them: the line splits into ONE pair (another set)
+		{Kind: "line", Pairs: P("a", "x\"y}", "b", "1")},   // raw (not last), unbalanced
+		{Kind: "line", Pairs: P("{a", "1", "~", "2")},      // first name with a leading brace
+		{Kind: "line", Pairs: P("a", "x\"y\"z")},           // balanced inner quotes: fine
+		{Kind: "line", Pairs: P("a", "b,c=d\"e\\")},        // quoted on the way out: fine
+		{Kind: "line", Pairs: P("a b", "1")},               // inner blank in a name: fine
+		{Kind: "line", Pairs: P(" a", "1")},                // MapToSet-only name
 		{Kind: "parse", S: str("~=2,{a=1")},
 		{Kind: "parse", S: str("a=\"\\\"x\"")},
 		{Kind: "parse", S: str("{ name=\"a\\\"pp\" }")},
 		{Kind: "parse", S: str("a=`x,y`")},
 		{Kind: "parse", S: str("a=1,a=2")},
 		{Kind: "parse", S: str("dir=C:\\logs\\,name=app")}, // unquoted value ending in a backslash before a separator
-		{Kind: "parse", S: str("a=b\\")},                     // ... and at the end of the text
+		{Kind: "parse", S: str("a=b\\")},                   // ... and at the end of the text
 		{Kind: "parse", S: str("a\\=b\\ ,c\\=\\")},
 		{Kind: "split", S: str("a=b\\")},
 		{Kind: "split", S: str("a\\=\\,b=\"\\\\\"")},
@@ -983,10 +1024,17 @@ func corpus() []Replay {
 		{Kind: "fprint", S: F("\"a\"", "1")},
 		{Kind: "fprint", S: F("a", "")},
 		{Kind: "fprint", S: F("a", "", "b", "c,d")},
-		{Kind: "fprint", S: F("a", string(long))},
+		{Kind: "fprint", S: F("a", string(long))},                                      // quoted form over 255 bytes: accepted back (the limit is on what is stored)
+		{Kind: "fprint", S: F("a", string(bytes.Repeat([]byte{'v'}, 254))+",")},        // 255 bytes, quoted form of 257 (the earlier parser refused it)
+		{Kind: "fprint", S: F("a", string(bytes.Repeat([]byte{'"'}, 255)))},            // quoted form of 512 bytes
+		{Kind: "fprint", S: F("", "", " ", "{", "{a", "}", "`n`", "`v`", "n\"", "x}")}, // empty name, blanks, braces inside, quote characters
+		{Kind: "fprint", S: F("{a", "x}")},                                             // both edges of the text
+		{Kind: "fprint", S: F("a", "x}", "{b", "")},                                    // inner brace values stay raw, empty last value
 		{Kind: "fprint", S: []byte{5, 'a'}},
 		{Kind: "fparse", S: str("\"a=b\"=1")},
-		{Kind: "fparse", S: append(append(str("a=\""), bytes.Repeat([]byte{0xff}, 90)...), '"')}, // unquotes to 270 bytes
+		{Kind: "fparse", S: append(append(str("a=\""), bytes.Repeat([]byte{0xff}, 90)...), '"')}, // unquotes to 270 bytes: refused
+		{Kind: "fparse", S: append(append(str("a=\""), bytes.Repeat([]byte{0xff}, 85)...), '"')}, // unquotes to 255 bytes: accepted
+		{Kind: "fparse", S: append(bytes.Repeat([]byte{' '}, 300), str("a=1")...)},               // 301-byte raw piece, stored name a
 		{Kind: "prov", Pairs: P("\"x\"", "1")},
 		{Kind: "prov", Pairs: P("a", string(long[:8])+string(bytes.Repeat([]byte{'b'}, 250)))},
 		{Kind: "prov", Pairs: P("a", "b c", "d", "e,f")},
